@@ -98,6 +98,11 @@ fn mode_c07(a: &Args) -> Value {
                     let s = if rng.chance(1, 2) { -1.0 } else { 1.0 };
                     (bits_of_f64(s * us(&mut rng)), bits_of_f64(us(&mut rng)), bits_of_f64(us(&mut rng)), "realistic")
                 }
+                6 => {
+                    // chronyd's own special values: delay and dispersion of exactly 1 s (its defaults), 0, 0.5
+                    let sp = |r: &mut Rng| bits_of_f64(*r.pick(&[1.0f64, 1.0, 0.5, 2.0, 0.0]));
+                    (bits_of_f64(*rng.pick(&[0.0f64, 1e-6, -1e-6, 1.0, -1.0])), sp(&mut rng), sp(&mut rng), "chrony-special-values")
+                }
                 _ => (gen_float(&mut rng, k, true), gen_float(&mut rng, k + 31, false), gen_float(&mut rng, k + 57, false), "stratified"),
             };
             let phc: i64 = *rng.pick(&[0i64, 0, 0, 1, 12345, 1 << 40]);
@@ -395,6 +400,7 @@ fn random_outcome(rng: &mut Rng, allow_sync: bool) -> Outcome {
         5 => Outcome::NoReply,
         6 => Outcome::PhcFailGrace,
         7 => Outcome::PhcFail,
+        8 => Outcome::Sync { a: *rng.pick(&[0i64, 1, -1, 1024, -3000]), b: 1024, c: 512, phc: 0, ivl_log2: 4, age_permille: 10 }, // chronyd's start-up defaults: delay 1 s, dispersion 1 s
         _ => Outcome::Sync { a: rng.range(-2_000_000, 2_000_000), b: rng.range(0, 2_000_000), c: rng.range(0, 2_000_000), phc: *rng.pick(&[0i64, 0, 0, 5, 30_000]),
                              ivl_log2: *rng.pick(&[0u8, 4, 4, 6, 10, 12]), age_permille: *rng.pick(&[0u16, 10, 500, 990, 1000]) },
     }
@@ -501,6 +507,9 @@ fn run_sequence(a: &Args, prop: &str, seq: &[Outcome], drift: u32, previous: boo
                     other => violation(violations, a, "C08", "readback-attached", format!("after outcome #{} of {}: the attached reader got {:?}, the sink was given {:?}", i, desc(), other.map(rig::raw_of), rec), case()),
                 }
             }
+        }
+        if prop == "C09" && have_sync && rec.status != 0 && (rec.bound != m_bound || rec.as_of != m_as_of) {
+            violation(violations, a, "C09", "trusted-status-with-bound-not-from-a-measurement", format!("after outcome #{} ({}) of {}: published status {} with (bound {}, as_of {:?}), but the latest synchronised measurement of this incarnation is (bound {}, as_of {:?})", i, o.name(), desc(), rec.status, rec.bound, rec.as_of, m_bound, m_as_of), case());
         }
         if prop == "C09" && !have_sync {
             *stats.entry("records-before-first-sync".to_string()).or_insert(0) += 1;
@@ -609,8 +618,9 @@ fn mode_c08_c09(a: &Args, prop: &str) -> Value {
             let len = 1 + rng.below(30) as usize;
             let mut seq: Vec<Outcome> = (0..len).map(|_| random_outcome(&mut rng, false)).collect();
             // then a synchronised report and more, to see that the pipeline does recover
-            seq.push(sync);
+            seq.push(if rng.chance(1, 3) { Outcome::Sync { a: 0, b: 1024, c: 512, phc: 0, ivl_log2: 4, age_permille: 10 } } else { sync });
             seq.push(random_outcome(&mut rng, true));
+            seq.push(random_outcome(&mut rng, false));
             let drift = *rng.pick(&[1000u32, 50_000, 500_000]);
             if let Some(e) = run(seq, drift, rng.chance(1, 2), &mut violations, &mut stats) {
                 inconclusive = Some(e);
